@@ -152,6 +152,8 @@ def amap_method(engine, st, last, args, dest_ty):
         old = mp.entries[i][1]
         mp.entries[i] = (mp.entries[i][0], args[2])
         return mk_option(True, old, ty=dest_ty)
+    if last == 'into_iter' and not isinstance(args[0], RefV):
+        return IterV([k for k, _ in mp.entries] if mp.is_set else [Agg('tuple', [k, v], '') for k, v in mp.entries])
     if last in ('iter', 'into_iter'):
         if mp.is_set:
             return IterV([RefV(Cell(k), 0) for k, _ in mp.entries])
@@ -594,6 +596,8 @@ def std_trait(engine, st, ty, tyb, tb, method, args, dest_ty, trait=None):
 
 
 def iterator_method(engine, st, method, args, dest_ty):
+    if method in ('into_iter', 'iter') and type(deref_all(args[0])).__name__ == 'AMapV':
+        return amap_method(engine, st, 'into_iter' if method == 'into_iter' else 'iter', args, dest_ty)
     if method == 'into_iter':
         v = args[0]
         if isinstance(v, VecV):
@@ -662,6 +666,9 @@ def iterator_method(engine, st, method, args, dest_ty):
         return IterV([copy_value(deref_all(x)) if isinstance(x, RefV) else x for x in it.items])
     if method in ('count', 'len'):
         return IV(len(it.items))
+    if method == 'collect' and dest_ty and base_type(dest_ty) == 'HashMap' and getattr(engine.env, 'symbolic_maps', False):
+        from symex import AMapV
+        return AMapV([(deref_all(t.fields[0]) if isinstance(t.fields[0], RefV) else t.fields[0], t.fields[1]) for t in it.items])
     if method == 'collect':
         tb_ = base_type(dest_ty) if dest_ty else 'Vec'
         if tb_ not in ('Vec', 'TinyVec', ''):
@@ -1133,6 +1140,22 @@ def seq_method(engine, st, method, args, dest_ty):
         n = args[1].concrete()
         items = s.items if isinstance(s, VecV) else s.fields
         return IterV([RefV(Cell(VecV([items[j] for j in range(i, i + n)])), 0) for i in range(0, len(items) - n + 1)])
+    if method in ('sort_by', 'sort_unstable_by') and isinstance(s, VecV):
+        # insertion sort driven by the real comparator (path split on each comparison): the result is the std result whenever the
+        # comparator is a total order (std only promises an unspecified order otherwise)
+        clo = args[1]
+        holder = RefV(Cell(clo), 0, True) if not isinstance(clo, RefV) else clo
+        out = []
+        for x in s.items:
+            pos = len(out)
+            for i, y in enumerate(out):
+                r = engine.call_closure(st, holder, [RefV(Cell(x), 0), RefV(Cell(y), 0)])
+                if engine.split_bool(st, zs(r.discr == -1)):      # x < y: goes before y
+                    pos = i
+                    break
+            out.insert(pos, x)
+        s.items[:] = out
+        return UnitV()
     if method in ('chunks', 'chunks_exact'):
         n = args[1].concrete()
         if n is None or n <= 0:
